@@ -103,13 +103,13 @@ def doOp (srvMode : Bool) (d : DSt) (toks : List String) : DSt :=
   match toks with
   | ["set_hdr_flags", v] =>
     { d with fst := { d.fst with hdrFlags := pn v },
-             obs := d.obs ++ [if srvMode then "ret=ok c=-" else "ret=ok w=- wf=-"] }
+             obs := d.obs ++ [if srvMode then "ret=ok c=- lc=0" else "ret=ok w=- wf=- lc=0"] }
   | _ =>
   let (op, next') := parseOp toks d.next
   -- set_backend_req_fd does not consume an identity
   let d := { d with next := next' }
   let fin (ret : String) (calls : String) (w : String) (wf : String) (d : DSt) : DSt :=
-    { d with obs := d.obs ++ [if srvMode then s!"ret={ret} c={calls}" else s!"ret={ret} w={w} wf={wf}"] }
+    { d with obs := d.obs ++ [if srvMode then s!"ret={ret} c={calls} lc=0" else s!"ret={ret} w={w} wf={wf} lc=0"] }
   match request d.fst op with
   | .error e => fin ("err." ++ e.name) "-" "-" "-" d
   | .ok (req, fst') =>
@@ -159,7 +159,7 @@ def run (toks : List String) : String :=
       let mq := pn ((kvOf head "mq").getD "2")
       let srvMode := (kvOf head "mode").getD "srv" == "srv"
       let d := ops.foldl (doOp srvMode) { fst := { maxQ := mq } }
-      " | ".intercalate d.obs
+      " | ".intercalate (d.obs ++ ["L=-"])
     | [] => "bad-line"
   | _ => "bad-line"
 
